@@ -336,6 +336,59 @@ def _run(u, qs, qb, rc, x0, y0, e0, x1, y1, e1, x2, y2, e2):
     return True
 
 
+# ---------------------------------------------------------------------------------- a row for every read, also for reads that a filter consumes
+from harness import pipeline_common as pc     # noqa: E402  (the real make_pipeline_from_args against recording output files, as C11)
+
+
+class _RowMatch(pc.DummyMatch):
+    """a match that contributes exactly one info row (the content of rows is what the conditions above decide)"""
+
+    def get_info_records(self, read):
+        return [["", 0, 0, 1, "", "A", "", self.adapter.name, "", "", ""]]
+
+
+class _RowMatches(pc.LazyMatches):
+    def _materialise(self):
+        if self._pending:
+            self._pending = False
+            if self._flag:
+                list.append(self, _RowMatch(self._name))
+
+
+ROW_SPECS = [pc.Spec(adapters="1", m="2", M="3", max_n=1.0, max_ee=1.0, max_aer=0.5, casava=True, last=_last, aux=True)
+             for _last in (None, "discard_trimmed", "discard_untrimmed", "untrimmed_output")]
+ROW_SPECS.append(pc.Spec(adapters="1", casava=True, aux=True))
+ROW_SPECS.append(pc.Spec(adapters="1", m="2", ts_out=True, M="3", tl_out=True, aux=True))
+
+
+def _row_hi(k):
+    return len(pc.tables_for(ROW_SPECS[_PARAM.get("set", 0)])[k]) - 1
+
+
+def check_row_for_every_read(t: int, c: int, e: int, mt: bool) -> bool:
+    """
+    pre: 0 <= t <= _row_hi("t") and 0 <= c <= _row_hi("c") and 0 <= e <= _row_hi("e")
+    post: _
+    """
+    # The pipeline is built by the real cli.make_pipeline_from_args from '--info-file ... <every filter option>'; one read
+    # with symbolic length / N count / CASAVA flag / expected errors / adapter found runs through the real process_reads
+    # loop.  Whatever filter consumes it (or none): the info file has received exactly one row for it (one match, or the
+    # single -1 row), and the rest and wildcard files were reached as well.
+    spec = ROW_SPECS[_PARAM.get("set", 0)]
+    tables = pc.tables_for(spec)
+    built = pc.build(spec.argv())
+    f = pc.Features(t, c, e, mt, spec.names(1)[0], tables)
+    f.matches = _RowMatches(mt, spec.names(1)[0])
+    read = pc.LazyRec(f)
+    n, bp1, bp2 = built.run([read], pc.MatchSetter1(f))
+    if n != 1:
+        return False
+    info = [x for x in built.outfiles.texts if x.path == "info.tsv"]
+    if len(info) != 1:
+        return False
+    return info[0].lines == 1
+
+
 # ---------------------------------------------------------------------------------- conditions
 CONDITIONS = []
 
@@ -412,11 +465,15 @@ CONDITIONS.append({"name": "plain/linked_then_single/front=False/back=True/befor
                    "param": {"mode": "plain", "shape": ("linked_then_single", False, True, "before"), "times": 2, "ranges": dict(_TWO, u=(1, 1), e2=(0, 0)), "part": "5removed"}})
 
 
+for _i in range(len(ROW_SPECS)):
+    CONDITIONS.append({"name": "row_for_every_read/%s" % " ".join(ROW_SPECS[_i].argv()), "fn": "check_row_for_every_read", "timeout": 900, "param": {"set": _i}})
+
+
 def describe():
     return {
         "functions": ["steps.py:InfoFileWriter.__call__", "adapters.py:SingleMatch.get_info_records", "adapters.py:LinkedMatch.get_info_records/trimmed", "info.pyx:ModificationInfo (compiled container, stores objects only)",
                       "modifiers.py:UnconditionalCutter.__call__", "modifiers.py:QualityTrimmer.__call__ / NextseqQualityTrimmer.__call__ (kernels stubbed)", "modifiers.py:AdapterCutter.__call__/match_and_trim",
-                      "modifiers.py:ReverseComplementer.__call__", "adapters.py:LinkedAdapter.match_to", "adapters.py:RemoveBeforeMatch/RemoveAfterMatch.trimmed", "steps.py:SingleEndFilter.__call__ + predicates.py:TooShort (a later filter)"],
+                      "modifiers.py:ReverseComplementer.__call__", "adapters.py:LinkedAdapter.match_to", "adapters.py:RemoveBeforeMatch/RemoveAfterMatch.trimmed", "steps.py:SingleEndFilter.__call__ + predicates.py:TooShort (a later filter)", "cli.py:make_pipeline_from_args (order of the info/rest/wildcard writers and every filter step) + pipeline.py:SingleEndPipeline.process_reads, for the row_for_every_read conditions"],
         "bounds": {"read": "fixed text ACMRH (5; ACMRHV in two conditions), distinct characters, distinct quality characters; FASTA input (no qualities) in one shape",
                    "-u": "-2..2 (0 = option absent), symbolic", "quality trimming": "0..2 bases at the 5' end and 0..2 at the 3' end, symbolic (arbitrary value of the kernel's contract); --nextseq-trim 0..2",
                    "matches": "none; one 5' or 3' match; two rounds (--times 2) of every kind sequence; one linked match (both parts, 5' part only, 3' part only); a linked match (both parts / one part) in round 1 followed by a single 5' or 3' match in round 2",
